@@ -172,6 +172,9 @@ BREAKING += [
     {"id": "C18-delay-cached-at-registration", "props": ["C18"], "silent": ["C06"], "edits": [
         E("learn/trainers/delay_adj_two_factor_stdp.py", "        # common and derived arguments\n        monitor_kwargs = {", "        state.delay = cell.connection.delay.unsqueeze(-1)\n\n        # common and derived arguments\n        monitor_kwargs = {", 2),
         E("learn/trainers/delay_adj_two_factor_stdp.py", "t_delta = t_pre - t_post - cell.connection.delay.unsqueeze(-1)", "t_delta = t_pre - t_post - state.delay", 2)]},
+    {"id": "C01-extracted-helper-wrong-order", "props": ["C01"], "edits": [E(INFRA, "        self.write(obs, offset=0, inplace=inplace)\n        self.incr(1)", "        self._write_and_advance(obs, inplace)\n\n    def _write_and_advance(self, obs, inplace):\n        self.incr(1)\n        self.write(obs, offset=0, inplace=inplace)")]},
+    {"id": "C13-extracted-size-helper-floor", "props": ["C13"], "edits": [E(INFRA, "        size = max(math.ceil(self.__duration / self.__dt) + self.__inclusive, 1)", "        size = _record_size(self.__duration, self.__dt, self.__inclusive)", 2),
+                                                  E(INFRA, "def _unwind_ptr(", "def _record_size(duration, dt, inclusive):\n    return max(math.floor(duration / dt) + inclusive, 1)\n\n\ndef _unwind_ptr(")]},
 ]
 
 BENIGN = [
@@ -187,6 +190,9 @@ BENIGN = [
     {"id": "B-repair-of-known-finding-D24", "edits": [
         E("learn/trainers/homeostasis.py", "state.batchreduce(k.clamp_max(0.0), 0),", "state.batchreduce(-k.clamp_max(0.0), 0),", 2),
         E("learn/trainers/homeostasis.py", "cell.connection.like_bias(state.batchreduce(k.clamp_max(0.0), 0)),", "cell.connection.like_bias(state.batchreduce(-k.clamp_max(0.0), 0)),", 1)]},
+    {"id": "B-extract-helper-method-push", "edits": [E(INFRA, "        self.write(obs, offset=0, inplace=inplace)\n        self.incr(1)", "        self._write_and_advance(obs, inplace)\n\n    def _write_and_advance(self, obs, inplace):\n        self.write(obs, offset=0, inplace=inplace)\n        self.incr(1)")]},
+    {"id": "B-extract-helper-function-size", "edits": [E(INFRA, "        size = max(math.ceil(self.__duration / self.__dt) + self.__inclusive, 1)", "        size = _record_size(self.__duration, self.__dt, self.__inclusive)", 2),
+                                                  E(INFRA, "def _unwind_ptr(", "def _record_size(duration, dt, inclusive):\n    return max(math.ceil(duration / dt) + inclusive, 1)\n\n\ndef _unwind_ptr(")]},
     {"id": "B-helper-commuted", "edits": [E(INFRA, "return (pointer - int(offset)) % size", "return (-int(offset) + pointer) % size")]},
     {"id": "B-push-temp", "edits": [E(INFRA, "        self.write(obs, offset=0, inplace=inplace)\n        self.incr(1)", "        zero = 0\n        self.write(obs, offset=0, inplace=inplace)\n        _ = self.incr(1)")]},
     {"id": "B-lif-extract-temp", "edits": [E("neural/functional/neuron_dynamics.py", "    return rest_v + (voltages - rest_v - extvoltage) * decay + extvoltage", "    relaxed = (voltages - rest_v - extvoltage) * decay\n    return extvoltage + rest_v + relaxed")]},
